@@ -319,7 +319,7 @@ TEXT_STATE = [
 ]
 COLOUR = [("g", Fr(1, 2)), ("rg", 1, 0, Fr(1, 2))]
 POSITION = [
-    ("Td", 7, -5), ("TD", 3, -14), ("Tm", 2, 0, 0, 2, 40, 80), ("Tm", 0, 1, -1, 0, 30, 20), ("T*",),
+    ("Td", 7, -5), ("TD", 3, -14), ("Tm", 2, 0, 0, 2, 40, 80), ("Tm", Fr(1, 2), 1, -2, 4, 30, 20), ("T*",),  # 2nd: a, b, c, d pairwise distinct
 ]
 SHOW = [
     ("Tj", b"A"), ("Tj", b"A B"), ("TJ", (b"A", -250, b"B", b"C")), ("'", b"C"), ('"', 1, 4, b"B"),
@@ -371,7 +371,7 @@ ROOTS = {
 BOUNDS = {
     "quick": {"depth": {"page": 4, "text": 3, "cmtext": 2}, "shard_depth": 2, "split2_depth": 3, "split3_depth": 2,
               "variants_deep": 1, "full_depth": 1, "wsets": [0, 1], "depth_wset1": 2},
-    "thorough": {"depth": {"page": 5, "text": 4, "cmtext": 3}, "shard_depth": 2, "split2_depth": 3, "split3_depth": 3,
+    "thorough": {"depth": {"page": 5, "text": 4, "cmtext": 3}, "shard_depth": 2, "split2_depth": 3, "split3_depth": 2,
                  "variants_deep": 3, "full_depth": 2, "wsets": [0, 1], "depth_wset1": 3},
 }
 
@@ -379,7 +379,7 @@ META = {
     "rule": (
         "breadth-first search over operator histories from three root prefixes (empty page; BT /F1 8 Tf; q cm g BT /F2 10 Tf 2 Tc) "
         "with the operator instances of the alphabet (q Q cm x3, BT ET, Tc Tw Tz TL Ts Tf x2 values, Td TD Tm x2 T*, Tj x2 TJ ' \", g rg, "
-        "Do of a self-contained / a nested / an inheriting form XObject, 17 ill-formed instances), only ISO-conformant orders "
+        "Do of a self-contained / a nested / an inheriting form XObject, 16 ill-formed instances), only ISO-conformant orders "
         "(no q/Q/cm/Do inside BT..ET, show only after Tf); state = (canonical real interpreter state, model state), deduplicated; "
         "every transition re-executes the whole history on the real interpreter and compares every glyph (text, font, matrix, advance, box, "
         "size, fill colour, colour space); in every state at the depth bound every show operator (and Do+show) is fired separately; every history up to "
@@ -463,7 +463,7 @@ def classify(events, wset, obs, exc) -> List[str]:
     explained exactly is 'unclassified' (fields that differ + last operator)."""
     if exc is not None:
         return [f"C05/exception:{gfx.exc_sig(exc)}"]
-    for k in (1, 2, 3):
+    for k in range(1, len(DEVIATIONS) + 1):
         for devs in itertools.combinations(DEVIATIONS, k):
             try:
                 alt = run_model(events, wset, frozenset(devs))
